@@ -78,8 +78,10 @@ public:
     {
         const Matrix& residues = this->m_ritz_pairs.residues();
         const Vector& eigvals = this->m_ritz_pairs.ritz_values();
-        Matrix correction = Matrix::Zero(this->m_matrix_operator.rows(), this->m_correction_size);
-        for (Index k = 0; k < this->m_correction_size; k++)
+        // The search space may hold fewer Ritz pairs than the requested number of corrections
+        const Index ncorr = (std::min)(this->m_correction_size, Index(eigvals.size()));
+        Matrix correction = Matrix::Zero(this->m_matrix_operator.rows(), ncorr);
+        for (Index k = 0; k < ncorr; k++)
         {
             Vector tmp = eigvals(k) - m_diagonal.array();
             correction.col(k) = residues.col(k).array() / tmp.array();
